@@ -485,7 +485,7 @@ func streamEnvelopes(rep *Report, tier string, seed uint64) {
 					// Go-syntax rendering puts the type name (safe text by design) around the address
 					valid = false
 				}
-				if v.hasKind(KNilMapStringer, KNilSliceError, KNilFuncStringer, KMapIfaceKey, KMapStructKey, KPtrStruct, KPtrRegStruct, KStrSlice, KIntArr, KMapKeyed, KRegStruct, KByteArr, KBytes, KComplex, KNilStringer, KGoStringer) && !declaredSafe {
+				if v.hasKind(KNilMapStringer, KNilSliceError, KNilFuncStringer, KMapIfaceKey, KMapStructKey, KMapSortKeys, KPtrStruct, KPtrRegStruct, KStrSlice, KIntArr, KMapKeyed, KRegStruct, KByteArr, KBytes, KComplex, KNilStringer, KGoStringer) && !declaredSafe {
 					// composite renderings: structural punctuation is written as safe text by design
 					valid = false
 				}
